@@ -3,7 +3,12 @@
    specification the engine is compared with; the theorems below are the scoping and loop
    bookkeeping clauses of the property, proved of that semantics for every program. *)
 From MJ Require Import Common.Base Lang.Syntax Lang.Meta Lang.Interp C03.Proofs.
-From MJ Require Import C04.Model L2.Instr L2.Compile L2.Vm L2.Simulation C03.L2Proofs.
+From MJ Require Import C04.Model.
+From MJ Require Import L2.Instr.
+From MJ Require Import L2.Compile.
+From MJ Require Import L2.Vm.
+From MJ Require Import L2.Simulation.
+From MJ Require Import C03.L2Proofs.
 
 (* loop.index, index0, revindex, revindex0, first, last and length describe the position [i] in a
    sequence of length [n] actually iterated *)
@@ -80,7 +85,8 @@ Proof. vm_compute. reflexivity. Qed.
    same program, opcode by opcode including jump targets and constants.  The theorems below say
    that this compiler + VM compute what the reference interpreter above defines.
    Vocabulary (L2/Simulation.v): [code_at C pc code]: [code] sits at index [pc] of the program [C];
-   [star c C]: zero or more VM steps; [l2_expr] / [l2_stmt]: the covered fragment.
+   [star c C]: zero or more VM steps; [l2_expr] / [l2_stmt]: the covered fragment; [post] / [unwound] / [lc_fits]: where the VM is after a
+   statement that ended normally or with a loop control, and the scopes a loop control undoes.
    ============================================================================================ *)
 
 (* constant folding never changes a result, whatever the fuel (C04's fold_agrees needs fuel >= depth):
@@ -103,42 +109,56 @@ Theorem compile_expr_correct : forall c C fuel esc e, l2_expr e = true ->
            (mkVm (base + length (compile_expr e base)) (v :: stk) s' esc escs caps its calls).
 Proof. intros c C fuel esc e Hw s v s' He. exact (sim_all c C fuel esc e Hw s v s' He). Qed.
 
-(* Statements: raw text, emit, if / elif / else, set, set-block (with filter), with, filter block and
-   autoescape, nested in any way, over the expressions above; compiled for ANY enclosing-loop
-   context [lc].  If the interpreter runs the statements from s to s', the VM runs their code from
-   its first to the instruction after its last with the same operand stack, state s', and the
-   auto-escape flag / stack and the capture stack as they were (frames pushed by `with`, captures
-   begun by set / filter blocks and auto-escape settings are all undone: what C05 checks on the
-   real streams, here proved of the model compiler); no loop control leaves them. *)
-Theorem compile_stmts_correct : forall c C fuel l, forallb l2_stmt l = true ->
+(* Statements: raw text, emit, if / elif / else, set, set-block (with filter), with, filter block,
+   autoescape, for loops without filter (any target incl. unpacking, else branch, the loop variable
+   and loop.* through the loop frame), break and continue - nested in any way, over the expressions
+   above; compiled for ANY enclosing-loop context [lc] ([inl]: loop controls may occur, then [lc] must
+   be a loop; [lc_fits]: the scopes [lc] says are open really are).  If the interpreter runs the
+   statements from s to s' with signal sg, the VM runs from the first instruction of their code to:
+     sg = normal   - the instruction after their code, same operand stack, state s', and the
+                     auto-escape flag / stack, the capture stack and the loop iterators as they were
+                     (frames pushed by `with` and loops, captures begun by set / filter blocks and
+                     auto-escape settings are all undone);
+     sg = break    - the end of the enclosing loop [lc_end], after undoing exactly the scopes opened
+                     since that loop ([unwound]: PopFrame / EndCapture; DiscardTop / PopAutoEscape in
+                     front of the jump - the clean-up whose absence was the C05 defect), state s';
+     sg = continue - likewise, at the loop's Iterate instruction [lc_iter]. *)
+Theorem compile_stmts_correct : forall c C fuel inl l, forallb (l2_stmt inl) l = true ->
   forall esc s sg s', exec_list c fuel esc s l = Ok (sg, s') ->
   forall base lc stk escs caps its calls, code_at C base (compile_stmts l base lc) ->
-  sg = SigNormal /\
-  star c C (mkVm base stk s esc escs caps its calls)
-           (mkVm (base + length (compile_stmts l base lc)) stk s' esc escs caps its calls).
-Proof. intros c C fuel l Hw. exact (proj2 (stmts_sim c C fuel) l Hw). Qed.
+  (inl = true -> lc <> None) -> lc_fits lc (length (s_env s)) (length escs) (length caps) ->
+  exists σ', star c C (mkVm base stk s esc escs caps its calls) σ' /\
+             post sg lc (base + length (compile_stmts l base lc)) stk s' esc escs caps its calls σ'.
+Proof. intros c C fuel inl l Hw. exact (proj2 (stmts_sim2 c C fuel) inl l Hw). Qed.
 
-Theorem compile_stmt_correct : forall c C fuel t, l2_stmt t = true ->
+Theorem compile_stmt_correct : forall c C fuel inl t, l2_stmt inl t = true ->
   forall esc s sg s', exec c fuel esc s t = Ok (sg, s') ->
   forall base lc stk escs caps its calls, code_at C base (compile_stmt t base lc) ->
-  sg = SigNormal /\
-  star c C (mkVm base stk s esc escs caps its calls)
-           (mkVm (base + length (compile_stmt t base lc)) stk s' esc escs caps its calls).
-Proof. intros c C fuel t Hw. exact (proj1 (stmts_sim c C fuel) t Hw). Qed.
+  (inl = true -> lc <> None) -> lc_fits lc (length (s_env s)) (length escs) (length caps) ->
+  exists σ', star c C (mkVm base stk s esc escs caps its calls) σ' /\
+             post sg lc (base + length (compile_stmt t base lc)) stk s' esc escs caps its calls σ'.
+Proof. intros c C fuel inl t Hw. exact (proj1 (stmts_sim2 c C fuel) inl t Hw). Qed.
 
-(* Whole templates of that fragment: whenever the reference interpreter renders the template
-   (final state s: output chunks, scopes, recorded context look-ups), eval_impl's loop on the
-   compiled template terminates in exactly the same state - same output in particular.
+(* the length of a statement's code does not depend on where its `break`s jump to - the fact behind
+   computing a loop's end before its body's final code exists (codegen.rs patches the jumps afterwards) *)
+Theorem code_length_independent_of_break_target : forall t base i e e' p,
+  length (compile_stmt t base (Some (mkL i e p))) = length (compile_stmt t base (Some (mkL i e' p))).
+Proof. exact compile_len_indep. Qed.
+
+(* Whole templates of that fragment (no loop control outside a loop): whenever the reference
+   interpreter renders the template (final state s: output chunks, scopes, recorded context
+   look-ups), eval_impl's loop on the compiled template terminates in exactly the same state - same
+   output in particular.
    PARTIAL - not covered by the simulation proof, tied to the code by the correspondence of the
    check only (model stream = real stream; model VM = interpreter = engine on generated programs):
-     * for loops (loop frame, loop variable, else, filter = the accumulate loop, unpacking targets),
-       break / continue with the scope clean-up in front of the jump;
+     * for loops WITH a filter (the accumulate loop: the interpreter opens a scope per item, the VM one
+       loop frame for all items - equal only up to the hidden loop counters), recursive loops;
      * macros (declaration behind a jump, defaults, closures: Enclose / GetClosure / BuildMacro),
        calls of macros and functions (ECall, keyword arguments), call blocks and caller();
      * the failing direction: that an evaluation error of the interpreter is the same error of the VM
-       (the theorem is a forward simulation of successful runs). *)
+       (the theorems are forward simulations of successful runs). *)
 Theorem compile_correct_partial : forall c fuel body s,
-  forallb l2_stmt body = true -> Interp.run c fuel body = Ok s ->
+  forallb (l2_stmt false) body = true -> Interp.run c fuel body = Ok s ->
   exists n, run_template c n (compile_template body) = Ok s.
 Proof. exact template_sim. Qed.
 
@@ -147,7 +167,7 @@ Proof. exact template_sim. Qed.
    set-block with filter, filter block, autoescape) is in the fragment, renders, and the VM on the
    compiled code reaches the same state; the stream contains the cleanup block of the chain *)
 Example l2_witness :
-  let x := 100 in let y := 101 in
+  let x := 100 in let y := 101 in let z := 102 in
   let prog :=
     [SSet x (EList [EConst (LInt 3); EConst (LInt 5)]);
      SIf [(ECmp (EConst (LInt 1)) [(CLt, EItem (EVar x) (EConst (LInt 0))); (CLe, EConst (LInt 3))],
@@ -158,14 +178,25 @@ Example l2_witness :
            [SSetBlock x [SEmit (EVar y); SRaw [97]] (Some F_upper); SEmit (EVar x)];
      SFilterBlock F_upper [SRaw [98]; SEmit (EIf (EVar y) (EConst (LInt 1)) None)];
      SAutoEscape (EConst (LBool true)) [SEmit (EConst (LStr [60]))];
-     SEmit (EOr (ECmp (EConst (LInt 7)) [(CNotIn, EVar x)]) (EVar y))] in
+     SEmit (EOr (ECmp (EConst (LInt 7)) [(CNotIn, EVar x)]) (EVar y));
+     (* {% for z in [7, 8, 9, 10] %}{% with x = z %}{% set y %}{% if z == 8 %}{% continue %}{% endif %}
+        {% if loop.last %}{% break %}{% endif %}{% endset %}{{ x }}{{ loop.index }}{% endwith %}{% else %}E{% endfor %} *)
+     SFor (TVar z) (EList [EConst (LInt 7); EConst (LInt 8); EConst (LInt 9); EConst (LInt 10)]) None
+          [SWith [(x, EVar z)]
+             [SSetBlock y [SIf [(ECmp (EVar z) [(CEq, EConst (LInt 8))], [SContinue])] None;
+                           SIf [(EAttr (EVar N_loop) A_last, [SBreak])] None] None;
+              SEmit (EVar x); SEmit (EAttr (EVar N_loop) A_index)]]
+          (Some [SRaw [69]]) false;
+     SFor (TPair y z) (EList []) None [SEmit (EVar y)] (Some [SRaw [69]]) false] in
   let cfg := mkCfg Lenient [] false in
-  forallb l2_stmt prog = true /\
-  match Interp.run cfg 50 prog, run_template cfg 200 (compile_template prog) with
-  | Ok s, Ok s' => s = s' /\ output_of s = [50; 54; 65; 66; 38; 108; 116; 59; 84; 114; 117; 101]    (* 2 6A B &lt; True *)
+  forallb (l2_stmt false) prog = true /\
+  match Interp.run cfg 50 prog, run_template cfg 400 (compile_template prog) with
+  | Ok s, Ok s' => s = s' /\ output_of s = [50; 54; 65; 66; 38; 108; 116; 59; 84; 114; 117; 101; 55; 49; 57; 51; 69]
+                                          (* 2 6A B &lt; True 71 93 E *)
   | _, _ => False
   end /\
-  existsb (fun i => match i with ISwap => true | _ => false end) (compile_template prog) = true.
+  existsb (fun i => match i with ISwap => true | _ => false end) (compile_template prog) = true /\
+  existsb (fun i => match i with IPopFrame => true | _ => false end) (cleanup_code [ClCapture; ClFrame]) = true.
 Proof. vm_compute. repeat split. Qed.
 
 (* the model VM also runs what the proof does not cover (loops, loop controls, macros with defaults
@@ -181,7 +212,7 @@ Example l2_beyond_the_proof :
                SMacro m2 [p] [] [SEmit (EVar p); SEmit (EVar x)];
                SEmit (ECall m2 [] [(p, EBin OAdd (EVar x) (EVar x))])] in
   let cfg := mkCfg Lenient [] false in
-  forallb l2_stmt prog = false /\
+  forallb (l2_stmt false) prog = false /\
   match Interp.run cfg 50 prog, run_template cfg 500 (compile_template prog) with
   | Ok s, Ok s' => output_of s = output_of s' /\ output_of s = [55; 52; 99; 50; 49]      (* 7 4c 21 *)
   | _, _ => False
@@ -200,4 +231,5 @@ Print Assumptions folded_constant_is_evaluation.
 Print Assumptions compile_expr_correct.
 Print Assumptions compile_stmts_correct.
 Print Assumptions compile_stmt_correct.
+Print Assumptions code_length_independent_of_break_target.
 Print Assumptions compile_correct_partial.
